@@ -79,9 +79,9 @@ def tasks(tier, seed):
         if kind == 'generic_implicit':
             qds = [('IE',), ('LU',), ('MIN-SR-S',), ('PIC',)] if quick else [(q,) for q in cm.IMPLICIT_QD]
         elif kind == 'explicit':
-            qds = [('EE',), ('PIC',)]
+            qds = [('EE',), ('PIC',), ('LF',)]
         elif kind in ('imex_1st_order', 'imex_1st_order_mass'):
-            qds = [('IE', 'EE'), ('LU', 'EE'), ('LU', 'PIC')] if quick else [(q, e) for q in ['IE', 'LU', 'MIN-SR-S', 'MIN', 'Qpar', 'TRAP'] for e in ['EE', 'PIC']]
+            qds = [('IE', 'EE'), ('LU', 'EE'), ('LU', 'PIC'), ('LU', 'LF')] if quick else [(q, e) for q in ['IE', 'LU', 'MIN-SR-S', 'MIN', 'Qpar', 'TRAP'] for e in ['EE', 'PIC', 'LF']]
         else:
             qds = [('IE', 'IE'), ('LU', 'IE'), ('LU', 'MIN-SR-S')] if quick else [(a, b) for a in ['IE', 'LU', 'MIN-SR-S', 'Qpar'] for b in ['IE', 'LU', 'MIN']]
         quads = cm.QUAD_TYPES
